@@ -120,6 +120,13 @@ func main() {
 		fmt.Printf("TOTAL findings=%d\n", total)
 		return
 	}
+	if os.Getenv("RB_DEBUG_NARROW32") != "" {
+		p, _ := Load(cfgAmd64, nil)
+		for _, s := range p.narrowArith32() {
+			fmt.Println(fname(s.f), p.ipos(s.conv), p.exprShape(s.op.Pos()))
+		}
+		return
+	}
 	if os.Getenv("RB_DEBUG_NARROW") != "" {
 		p, _ := Load(cfgAmd64, nil)
 		for _, l := range p.allNarrow16() {
